@@ -97,6 +97,21 @@ def run(ctx):
     y6(ctx, F)
 
 
+def history_plays_and_records(ctx, F, rule):
+    """Game::push_history(m) plays m (one unconditional Game::push of its own argument) - recording a move without playing it, or
+    playing another one, makes the record and the board disagree"""
+    ph = F.fn("chess::Game::push_history")
+    symp = hir.Sym(hir.Env(ph["hir"], F), F)
+    params = [p_["pat"].get("name") for p_ in ph["hir"]["params"]]
+    mv = params[1] if len(params) > 1 else None
+    plays = [c for c, _ in hir.walk(ph["hir"]["body"]) if c.get("k") == "MethodCall" and hir.callee_of(c) == "chess::Game::push"]
+    ok = len(plays) == 1 and mv is not None and symp(plays[0]["args"][0]) == ("var", mv) and \
+        not [x for x in (hir.guards_of(plays[0], ph["hir"]["body"], symp) or []) if x[0] in ("if", "arm")]
+    ctx.check(rule, "recording-a-move-plays-it", ok, fn=ph["path"], file=ph["file"], line=ph["span"][0],
+              what="Game::push_history must play exactly the move it records (one unconditional Game::push of its argument)",
+              expected="self.push(%s)" % mv, found=[hir.fmt(symp(c["args"][0]), 40) for c in plays])
+
+
 def y6(ctx, F):
     """Y6 the move record lists the moves that were played and stayed played: a function that appends to the record
     (Game::push_history) never takes a move back itself (Game::pop does not shorten the record, so a recorded move that is taken
@@ -129,9 +144,10 @@ def y6(ctx, F):
                    "cannot hold a whole game (the position command accepts 400 plies)",
               expected="Vec::push (or a fixed list of at least 512 entries, pushed infallibly)",
               found={"appends": [c["name"] for c in apps], "type": fty})
+    history_plays_and_records(ctx, F, "C20.Y6")
     before, nv = len(ctx.instances), len(ctx.violations)
     p04.rule_k5(ctx, F)
-    p04.rule_k6(ctx, F)
+    p04.rule_k6(ctx, F, parts=("rank", "slots", "final", "side"))
     for i in ctx.instances[before:]:
         i["rule"] = "C20.Y7(" + i["rule"] + ")"
     for v in ctx.violations[nv:]:
